@@ -340,3 +340,114 @@ Proof.
   - rewrite (rel_path_normal_text _ Hnn). rewrite Es. rewrite (rel_from_dot_front T HT), Hfix. reflexivity.
   - rewrite (rel_path_normal_text _ Hnn). rewrite Es, Hfix. reflexivity.
 Qed.
+
+(* ================================================================ 2. path_normal *)
+Local Notation pn := (pct_norm false).
+(* a segment as path_normal leaves it: no '/', percent-encodings normalized *)
+Definition pseg (s : text) : Prop := no_slash s /\ pn s = s.
+
+Lemma pseg_nil : pseg [].
+Proof. split; [constructor|reflexivity]. Qed.
+Lemma pseg_dot : pseg [46].
+Proof. split; [exact no_slash_dot|reflexivity]. Qed.
+
+Lemma pseg_no_slash W : Forall pseg W -> Forall no_slash W.
+Proof. apply Forall_impl. intros s H. apply H. Qed.
+
+(* the segments of the percent-normalized path text *)
+Lemma pn_segs p : forallb pct_wf (split_on 47 p) = true ->
+  map pn (split_on 47 p) <> [] /\ Forall pseg (map pn (split_on 47 p)).
+Proof.
+  intros Hwf. split.
+  - pose proof (split_nonnil p) as H. destruct (split_on 47 p); [congruence|discriminate].
+  - apply Forall_forall. intros x Hx. apply in_map_iff in Hx. destruct Hx as (s & <- & Hs).
+    rewrite forallb_forall in Hwf. pose proof (Hwf s Hs) as Hw.
+    pose proof (split_no_slash p) as Hns. rewrite Forall_forall in Hns.
+    split; [|apply pct_norm_idem; exact Hw].
+    rewrite <- (fix_pct_spec s Hw). apply fix_pct_no_slash; [exact Hw|exact (Hns s Hs)].
+Qed.
+
+(* such a text is left alone by the percent-encoding step *)
+Lemma pn_join_fixed W : W <> [] -> Forall pseg W ->
+  join_slash (map pn (split_on 47 (join_slash W))) = join_slash W.
+Proof.
+  intros Hne H. rewrite (split_join W Hne (pseg_no_slash W H)). f_equal.
+  rewrite <- (map_id W) at 2. apply map_ext_in. intros s Hs. rewrite Forall_forall in H. apply (H s Hs).
+Qed.
+
+(* path_normal in one line: dot segments by rds_keep_kind unless the reference is a relative-path reference *)
+Lemma path_normal_alt hs ha p :
+  path_normal hs ha p =
+  let p' := join_slash (map pn (split_on 47 p)) in
+  if hs || ha || head_is 47 p' then rds_keep_kind p' else rel_path_normal p'.
+Proof.
+  unfold path_normal. cbv zeta. destruct (join_slash (map pn (split_on 47 p))) as [|c r] eqn:E.
+  - destruct (hs || ha); reflexivity.
+  - unfold rds_keep_kind. destruct (head_is 47 (c :: r)); [rewrite orb_true_r; reflexivity|].
+    rewrite orb_false_r. reflexivity.
+Qed.
+
+(* what rds_keep_kind leaves, on segments *)
+Lemma rkk_shape S : S <> [] -> Forall pseg S ->
+  exists W, W <> [] /\ Forall pseg W /\ nodots W /\ rds_keep_kind (join_slash S) = join_slash W.
+Proof.
+  intros Hne HS. pose proof (pseg_no_slash S HS) as Hns.
+  destruct (join_slash S) as [|c r] eqn:Ej.
+  { exists [[]]. repeat split; [discriminate|constructor; [exact pseg_nil|constructor]]. }
+  destruct (head_is 47 (join_slash S)) eqn:Hh.
+  - (* rooted: the first segment is empty and another follows *)
+    destruct S as [|[|x s0] S1]; [congruence| |].
+    + destruct S1 as [|s1 S2]; [discriminate Ej|]. inversion HS as [|? ? _ HS1]; subst.
+      assert (s1 :: S2 <> []) as Hne1 by discriminate.
+      exists ([] :: awalk (s1 :: S2)). split; [discriminate|]. split; [|split].
+      * constructor; [exact pseg_nil|]. apply awalk_Forall; [exact pseg_nil|exact HS1].
+      * unfold nodots. cbn [forallb]. rewrite (awalk_nodots (s1 :: S2)). reflexivity.
+      * rewrite <- Ej. change (join_slash ([] :: s1 :: S2)) with (47 :: join_slash (s1 :: S2)).
+        rewrite (join_cons_nil _ (awalk_nonnil _ Hne1)). unfold rds_keep_kind. cbn [head_is]. rewrite N.eqb_refl.
+        apply rds_segs; [exact Hne1|exact (pseg_no_slash _ HS1)].
+    + exfalso. inversion Hns as [|? ? Hx _]; subst. destruct (no_slash_head _ _ Hx) as [Hx1 _].
+      destruct (join_head x s0 S1) as [tl' E]. rewrite E in Hh. cbn [head_is] in Hh. congruence.
+  - exists (awalk S). split; [exact (awalk_nonnil S Hne)|]. split; [|split].
+    + apply awalk_Forall; [exact pseg_nil|exact HS].
+    + apply awalk_nodots.
+    + rewrite <- Ej. apply rkk_segs; [exact Hne|exact Hns|rewrite Ej; discriminate|exact Hh].
+Qed.
+
+(* what rel_path_normal leaves *)
+Lemma rpn_shape S : S <> [] -> Forall pseg S -> join_slash S <> [] ->
+  exists W, W <> [] /\ Forall pseg W /\ rel_path_normal (join_slash S) = join_slash W
+            /\ join_slash W <> [] /\ head_is 47 (join_slash W) = false.
+Proof.
+  intros Hne HS Hj. rewrite (rel_path_normal_text _ Hj). rewrite (split_join S Hne (pseg_no_slash S HS)).
+  set (T := rel_from [] S).
+  assert (T <> []) as HT by apply rel_from_nonnil.
+  assert (Forall pseg T) as HP by (apply rel_from_Forall; [exact pseg_nil|exact HS]).
+  destruct (spec_text_split T HT (pseg_no_slash T HP)) as (Hnn & Hh & [[Es ET]|[[Es Et]|[Es Et]]]).
+  - exists [[46]; []]. rewrite ET. repeat split; try discriminate.
+    constructor; [exact pseg_dot|constructor; [exact pseg_nil|constructor]].
+  - exists (@cons text [46] T). rewrite (join_dot_front T HT), <- Et. repeat split; try assumption; try discriminate.
+    constructor; [exact pseg_dot|exact HP].
+  - exists T. rewrite <- Et. repeat split; assumption.
+Qed.
+
+(* percent-encodings well formed in every segment: what the parser guarantees (uri_pct_wf) *)
+Theorem path_normal_idem hs ha p : forallb pct_wf (split_on 47 p) = true ->
+  path_normal hs ha (path_normal hs ha p) = path_normal hs ha p.
+Proof.
+  intros Hwf. destruct (pn_segs p Hwf) as [Hne HS].
+  rewrite (path_normal_alt hs ha p). cbv zeta. set (S := map pn (split_on 47 p)) in *.
+  destruct (hs || ha || head_is 47 (join_slash S)) eqn:Ef.
+  - destruct (rkk_shape S Hne HS) as (W & HWne & HW & Hnd & E). rewrite E.
+    rewrite path_normal_alt. cbv zeta. rewrite (pn_join_fixed W HWne HW).
+    assert (hs || ha || head_is 47 (join_slash W) = true) as Ef2.
+    { destruct (hs || ha); [reflexivity|]. cbn [orb] in *. rewrite <- E.
+      unfold rds_keep_kind. destruct (join_slash S) eqn:Ej; [discriminate Ef|]. rewrite <- Ej in *. rewrite Ef.
+      apply rds_rooted. exact Ef. }
+    rewrite Ef2. apply rkk_fixed; [exact (pseg_no_slash W HW)|exact Hnd].
+  - destruct (join_slash S) as [|c r] eqn:Ej; [reflexivity|]. rewrite <- Ej in *.
+    assert (join_slash S <> []) as Hj by (rewrite Ej; discriminate).
+    destruct (rpn_shape S Hne HS Hj) as (W & HWne & HW & E & HjW & HhW). rewrite E.
+    rewrite path_normal_alt. cbv zeta. rewrite (pn_join_fixed W HWne HW).
+    apply orb_false_elim in Ef. destruct Ef as [Ef _]. rewrite Ef, HhW. cbn [orb].
+    rewrite <- E. apply rel_path_normal_idem.
+Qed.
